@@ -16,7 +16,9 @@ from gen.rng import Rng
 from lib.vlib import Check, NCPU, check_props, coq_eval_many, coq_result, vh
 
 CHAIN = ['ccp', 'lvn', 'dce']            # every pass is applied to the output of the previous one
-MODELLED = {'ccp': 'PCcp', 'dce': 'PDce', 'lvn': 'PLvn'}
+# optimize_function_for_rounds with only local value numbering switched on (lib.rs): Passes.pipeline true
+FULL_CHAIN = CHAIN + CHAIN + ['ccp', 'dce', 'ccp']
+MODELLED = {'ccp': 'PCcp', 'dce': 'PDce', 'lvn': 'PLvn', 'pipeline': 'PPipe'}
 HEADER = ('From Coq Require Import ZArith NArith List Bool. Import ListNotations.\n'
           'From SV Require Import Common.Int32 C02deep.Syntax C02deep.Sem C02deep.Passes C02deep.Corr.\n'
           'Open Scope Z_scope.\n')
@@ -106,7 +108,7 @@ def programs(tier, seed):
 
 
 def dump(progs):
-    jobs = [{'id': i, 'sources': p['sources'], 'entry': p['entry'], 'passes': CHAIN} for i, p in enumerate(progs)]
+    jobs = [{'id': i, 'sources': p['sources'], 'entry': p['entry'], 'passes': FULL_CHAIN} for i, p in enumerate(progs)]
     chunks = [jobs[i::NCPU] for i in range(NCPU)]
 
     def run_chunk(c):
@@ -335,10 +337,12 @@ def deep(ck, tier, seed):
                 if vs[k] is None or vs[k + 1] is None or pn not in MODELLED:
                     continue
                 cases.append((pn, vs[k], vs[k + 1], {'program': i, 'function': f['name']}))
+            if len(vs) == len(FULL_CHAIN) + 1 and vs[0] is not None and vs[-1] is not None:
+                cases.append(('pipeline', vs[0], vs[-1], {'program': i, 'function': f['name']}))
     # synthetic functions of the fragment through the real passes (replay mode of vh mir-dump)
     syn = synthetic(tier, seed)
     cur = list(syn)
-    for pn in CHAIN:
+    for step, pn in enumerate(FULL_CHAIN):
         res_p = real_pass_batch(cur, pn)
         nxt = []
         for k, (f0, r) in enumerate(zip(cur, res_p)):
@@ -354,9 +358,13 @@ def deep(ck, tier, seed):
             if 'after' not in r:
                 nxt.append(None)
                 continue
-            cases.append((pn, f0, r['after'], {'synthetic': k}))
+            if step < len(CHAIN):
+                cases.append((pn, f0, r['after'], {'synthetic': k}))
             nxt.append(r['after'])
         cur = nxt
+    for k, (f0, f9) in enumerate(zip(syn, cur)):
+        if f0 is not None and f9 is not None:
+            cases.append(('pipeline', f0, f9, {'synthetic': k}))
     # the MIR-level witness of fixed finding C02-ccp-unchanging-loop-variable-raw-bind (Props.C02deep_ccp_old2_refuted)
     wr = replay_on_real_pass(WITNESS_RAW_INIT, 'ccp')
     still = 'after' in wr and json.dumps(['v', 2]) in json.dumps(wr['after'])
@@ -418,7 +426,7 @@ def deep(ck, tier, seed):
                 ck.disagree('C02deep.Corr.model %s vs real pass output' % pn,
                             {'pass': pn, 'function': where.get('function', 'synthetic #%s' % where.get('synthetic')), 'before': before, 'sources': src},
                             'Passes.%s (see theories/C02deep/Passes.v)' % pn, after,
-                            how='vh mir-dump on the sources, passes=%s' % CHAIN)
+                            how='vh mir-dump on the sources, passes=%s' % FULL_CHAIN)
             if inv_bad:
                 ck.disagree('C02deep: the invariant between rounds (no + / - overflow is preserved, Props.C02deep_*_add) fails after %s' % pn,
                             {'pass': pn, 'function': where.get('function', 'synthetic'), 'before': before},
